@@ -3,6 +3,7 @@
 //! result line `(<id> <payload>)` per job.  Every library call runs under catch_unwind.
 mod builder;
 mod circ;
+mod exhaust;
 mod lit;
 mod sexp;
 
@@ -17,6 +18,7 @@ fn run_job(job: &Sexp) -> String {
         "compile" => circ::job_compile(job),
         "builder" => builder::job_builder(job),
         "literal" => lit::job_literal(job),
+        "exhaust" => exhaust::job_exhaust(job),
         k => format!("(unknown-kind {k})"),
     }
 }
